@@ -65,8 +65,10 @@ def build(kind, vspecs, marked, type_expr, new, mark_single=False):
     return t
 
 
-def emit(modname, cfgid, kind, vspecs, marked, type_expr, new, sp=None, pre='', mark_single=False):
+def emit(modname, cfgid, kind, vspecs, marked, type_expr, new, sp=None, pre='', mark_single=False, xf=None):
     t = build(kind, vspecs, marked, type_expr, new, mark_single)
+    if xf:
+        xf(t)
     body = pre + PRE + render_type(t, sp)
     h = Harness('h_default', unwind=18, covers=['reached'])
     if kind == 'union':
